@@ -22,5 +22,5 @@ Extraction "model.ml"
   base32_encode base32_decode b32_spec_encode b32_spec_value b32_filter b32_langb
   base64_encode base64_decode b64_spec_encode b64_filter b64_langb b64_spec_value
   ss_empty ss_step ss_reveal ss_last
-  rel_get_hmac rel_hmac_ctx rel_get_hmac_securekey rel_token_securekey rel_pbkdf2 rel_pepper rel_hkdf_extract rel_decode_secure all_released_zero
+  rel_get_hmac rel_hmac_ctx rel_get_hmac_securekey rel_token_securekey rel_pbkdf2 rel_pepper rel_hkdf_extract rel_decode_secure rel_secret_reveal all_released_zero
   ct_equals.
